@@ -184,6 +184,11 @@ def dep_progs(props=None, sfx=''):
         Cls('SA(z)', ['z = 0 .. 0'], 'A(0)', [Flow('READ X', ['A(0)'], ['X SB(1 .. 2*N-1 .. 2)'])], **k),
         Cls('SB(k)', ['k = 1 .. 2*N-1 .. 2', 'h = k / 2'], 'A(k)', [Flow('READ X', ['X SA(0)']), Flow('RW Y', ['A(k)'], ['Y SC(h)'])], **k),
         Cls('SC(h)', ['h = 0 .. N-1'], 'A(2*h+1)', [Flow('RW Y', ['Y SB(2*h+1)'], ['A(2*h+1)'])], **k)], tags=['stride']))
+    # a producer with two written flows whose flow indices differ from the consumers' flow indices
+    P.append(Prog('twoout' + sfx, {'A': 'N', 'B': 'N'}, ['N'], NV(1, 2, 3), [
+        Cls('PP(k)', ['k = 0 .. N-1'], 'A(k)', [Flow('RW X', ['A(k)'], ['X2 C2(k)']), Flow('RW Y', ['B(k)'], ['Y1 C1(k)'])], **k),
+        Cls('C1(k)', ['k = 0 .. N-1'], 'B(k)', [Flow('RW Y1', ['Y PP(k)'], ['B(k)'])], **k),
+        Cls('C2(k)', ['k = 0 .. N-1'], 'A(k)', [Flow('CTL G', [], []), Flow('RW X2', ['X PP(k)'], ['A(k)'])], **k)], tags=['twoout']))
     return P
 
 
@@ -233,7 +238,7 @@ def c02_family(tier):
     progs, refused = valid(progs)
     if tier == 'quick':
         want = ['chain', 'route', 'fanout', 'fanin', 'inin', 'wnew', 'tree', 'wave', 'nullfw', 'a2a', 'stride',
-                'route_cnt', 'inin_cnt', 'wave_cnt', 'su_tmtf_ttmo', 'su_btmo_tmtn', 'su_newf_ctlo']
+                'twoout', 'route_cnt', 'inin_cnt', 'wave_cnt', 'su_tmtf_ttmo', 'su_btmo_tmtn', 'su_newf_ctlo']
         progs = [p for p in progs if p.name in want]
         missing = set(want) - set(p.name for p in progs)
         assert not missing, missing
